@@ -596,6 +596,25 @@ class FuncModel:
             f = self.translator(tnode, atomize, numeric).f(test)
             fs.append(f if pol else logic.Not(f))
             fs.extend(self._definition_facts(test, tnode, atomize, numeric))
+        # inside the body of `for x in L` (L a local that the body does not change) L is not empty
+        for d in self.cfg.dominators(n):
+            lp = getattr(d, "loop", None)
+            if d.kind == "branch" and d.test is None and d.pol and isinstance(lp, ast.For) and isinstance(lp.iter, ast.Name) \
+                    and atomize is None:
+                L = lp.iter.id
+                changed = False
+                for y in ast.walk(lp):
+                    if isinstance(y, ast.Name) and y.id == L and isinstance(y.ctx, (ast.Store, ast.Del)):
+                        changed = True
+                    if isinstance(y, ast.Call) and isinstance(y.func, ast.Attribute) and isinstance(y.func.value, ast.Name) \
+                            and y.func.value.id == L and y.func.attr not in ("copy", "index", "count"):
+                        changed = True
+                    if isinstance(y, ast.Subscript) and isinstance(y.ctx, (ast.Store, ast.Del)) and isinstance(y.value, ast.Name) \
+                            and y.value.id == L:
+                        changed = True
+                if not changed:
+                    hdr = self.cfg.loop_header[lp]
+                    fs.append(self.translator(hdr, None, numeric).f(ast.parse(f"len({L}) > 0", mode="eval").body))
         return logic.And(*fs)
 
     # what the definitions of a tested variable say about it:  `xs = f() if flag else []` ... `if len(xs) != 0:` can only
